@@ -507,6 +507,9 @@ def run(repo: Repo, tier: str) -> Report:
     tot: Dict[str, int] = {}
     ncalls = 0
     for name in sorted(kernels):
+        if kernels[name].inlined:
+            rep.note(f"{name}: helper not present in the reference tree, analysed inlined in its callers (sa/canon.py)")
+            continue
         st = analyse_kernel(rep, kernels[name])
         w, prover = st.pop("_walker")
         ncalls += call_preconditions(rep, kernels[name], w, prover)
